@@ -35,3 +35,14 @@ def stv (choose : List Nat → Nat) (P : List (List Nat)) (m : Nat) (fixer : Nat
   stvLoop choose m P ((List.range m).map (· + fixer))
 
 #eval stv (fun c => c.headD 0) [[1,2,3],[2,1,3],[3,1,2],[3,2,1],[1,3,2]] 3 1
+
+/-- replay of the random tie-breaker: round `t` drops `choices[t]`, which must be one of the
+minimal alternatives of that round (`none` otherwise) -/
+def stvReplay : List Nat → List (List Nat) → List Nat → Option Nat
+  | _, _, [] => none
+  | _, _, [a] => some a
+  | [], _, _ :: _ :: _ => none
+  | d :: ds, P, labels@(_ :: _ :: _) =>
+    if (argmins (pluralityScores P labels.length)).contains d then
+      stvReplay ds (P.map (fun row => dropRow row d)) (labels.eraseIdx d)
+    else none
